@@ -8,34 +8,34 @@ Import ListNotations.
 Open Scope N_scope.
 
 (* basic values are unchanged (only the static type may change) *)
-Theorem C02_basic_unchanged : forall e M f src st, eval_v e M (S f) PId src st = Done (src, st).
+Theorem C02_basic_unchanged : forall e M F f cx src st, eval_v e M F (S f) cx PId src st = Done (src, st).
 Proof. exact eval_id. Qed.
 
 (* pointers: nil converts to nil, non-nil to a non-nil pointer to the conversion of the pointee *)
-Theorem C02_pointer_nil : forall e M f t q st,
-  eval_v e M (S (S f)) (POfAssign t (APtr q)) VNil st = Done (zero e ZFUEL t, st).
+Theorem C02_pointer_nil : forall e M F f cx t q st,
+  eval_v e M F (S (S f)) cx (POfAssign t (APtr q)) VNil st = Done (zero e ZFUEL t, st).
 Proof. exact eval_ptr_nil. Qed.
-Theorem C02_pointer_nonnil : forall e M f t q a v st,
-  eval_v e M (S (S f)) (POfAssign t (APtr q)) (VPtr a v) st =
-  match eval_v e M f q v st with
+Theorem C02_pointer_nonnil : forall e M F f cx t q a v st,
+  eval_v e M F (S (S f)) cx (POfAssign t (APtr q)) (VPtr a v) st =
+  match eval_v e M F f cx q v st with
   | Done (r, st1) => Done (VPtr st1 r, st1 + 1)
-  | Panicked => Panicked | OutOfFuel => OutOfFuel | Stuck => Stuck
+  | Panicked => Panicked | OutOfFuel => OutOfFuel | Stuck => Stuck | Errored er => Errored er
   end.
 Proof. exact eval_ptr_some. Qed.
 
 (* slices: nil stays nil; a non-nil (also empty) slice becomes non-nil with the same length *)
-Theorem C02_slice_nil : forall e M f el a old st, eval_a e M (S f) (AList false el a) VNil old st = Done (old, st).
+Theorem C02_slice_nil : forall e M F f cx el a old st, eval_a e M F (S f) cx (AList false el a) VNil old st = Done (old, st).
 Proof. exact eval_slice_nil. Qed.
-Theorem C02_slice_length : forall e M f el a i vs old st v st',
-  eval_a e M (S f) (AList false el a) (VSlice i vs) old st = Done (v, st') ->
+Theorem C02_slice_length : forall e M F f cx el a i vs old st v st',
+  eval_a e M F (S f) cx (AList false el a) (VSlice i vs) old st = Done (v, st') ->
   exists rs, v = VSlice st rs /\ length rs = length vs.
 Proof. exact eval_slice_nonnil. Qed.
 
 (* maps: nil stays nil; a non-nil map becomes non-nil with one entry per source entry *)
-Theorem C02_map_nil : forall e M f k v old st, eval_a e M (S f) (AMap k v) VNil old st = Done (old, st).
+Theorem C02_map_nil : forall e M F f cx k v old st, eval_a e M F (S f) cx (AMap k v) VNil old st = Done (old, st).
 Proof. exact eval_map_nil. Qed.
-Theorem C02_map_entries : forall e M f k v i kvs old st r st',
-  eval_a e M (S f) (AMap k v) (VMap i kvs) old st = Done (r, st') ->
+Theorem C02_map_entries : forall e M F f cx k v i kvs old st r st',
+  eval_a e M F (S f) cx (AMap k v) (VMap i kvs) old st = Done (r, st') ->
   exists rs, r = VMap st rs /\ length rs = length kvs.
 Proof. exact eval_map_nonnil. Qed.
 
